@@ -58,7 +58,9 @@ func c05Cells(tier string) []Cell {
 				for _, su := range []bool{false, true} {
 					for _, init := range []string{"A", "S"} {
 						for first := 0; first < len(c05Alphabet(ft)); first++ {
-							c := FCfg{Front: front, SU: su, MS: true, Init: init, FailC: "0", Rand: rnd, Tags: []string{"window", fmt.Sprint(maxLen), fmt.Sprint(first)}}
+							// a second key (absent) for failures of "another key"; BackendConfig carries a count limit that must not
+							// reach the failure cache (the backend is given explicitly, so the limit applies to nothing)
+							c := FCfg{Front: front, SU: su, MS: true, Init: init + "A", FailC: "00", Rand: rnd, BCount: 1, Tags: []string{"window", fmt.Sprint(maxLen), fmt.Sprint(first)}}
 							if init == "S" && rnd == 1+0.5 {
 								c.UpdSec = 2 // UpdateTTL shorter than FailedUpdateTTL: the refreshed stale copy expires inside the window
 							}
@@ -93,7 +95,8 @@ func c05FT(cfg FCfg) time.Duration {
 
 func c05Alphabet(ft int) []string {
 	return []string{"Get(ok)", "Get(fail)", "Advance(1s)", "Advance(FT*0.95-16ns)", "Advance(FT*1.05+1ns)", "ExpireAll(backend)", "Get(fail, caller context already cancelled)",
-		"Get(fail, caller context carries TTL 1s)", "Get(ok, caller context carries TTL 1h)"}
+		"Get(fail, caller context carries TTL 1s)", "Get(ok, caller context carries TTL 1h)",
+		"Get(fail) of another key", "cleanup cycle of the failure cache"}
 }
 
 func c05Burst(cfg FCfg, env *Env) CellResult {
@@ -235,6 +238,13 @@ func c05Window(cfg FCfg, env *Env) CellResult {
 					if ft > 0 {
 						vclock.Advance(time.Duration(float64(ft)*1.05) + time.Nanosecond)
 					}
+				case 9:
+					// a failure of another key is remembered too; it must not push this key's failure out
+					h.cfg.Script = "f"
+					_, _, _, _ = h.front.Get(context.Background(), append([]byte(nil), h.keys[1]...), h.builder(1))
+					vsched.Join()
+				case 10:
+					h.front.ErrorsCleanup()
 				case 5:
 					h.front.ExpireAll()
 					evs = append(evs, c05Ev{op: ops[o], at: vclock.NowQuiet(), expireAll: true})
@@ -380,7 +390,7 @@ func init() {
 		ID: "C05", Title: "Build economy: SyncRead single-flight and cached failures suppress rebuilds",
 		Cells: c05Cells, Run: c05Run,
 		Rule: "(a,c) SyncRead bursts: 2-3 threads x 1-2 Gets on one key in state {absent, stale, too stale, fresh}, builder ok / failing, SU x FH x MS x 3 front-ends, all schedules within the bound: exactly one (successful / failing) build per burst; " +
-			"(b) all sequences of <=4 (quick) / <=5 (thorough) operations over {Get(ok), Get(fail), Get(fail) under an already cancelled caller context, Get(fail) under a caller TTL of 1s, Get(ok) under a caller TTL of 1h, Advance 1s, Advance FT*0.95-1ns, Advance FT*1.05+1ns, ExpireAll(backend)} for FailedUpdateTTL {20s, 5s, -1} with the jitter answer at both extremes and the middle: " +
+			"(b) all sequences of <=4 (quick) / <=5 (thorough) operations over {Get(ok), Get(fail), Get(fail) under an already cancelled caller context, Get(fail) under a caller TTL of 1s, Get(ok) under a caller TTL of 1h, Get(fail) of another key, a cleanup cycle of the internal failure cache, Advance 1s, Advance FT*0.95-1ns, Advance FT*1.05+1ns, ExpireAll(backend)} for FailedUpdateTTL {20s, 5s, -1} with the jitter answer at both extremes and the middle: " +
 			"no builder entry before t_fail + FT*(1-J/2), same error inside the window, rebuild on every Get with FT=-1",
 		Assumptions: []string{
 			"a burst happens at one virtual instant, so the built result stays fresh for its whole duration",
